@@ -628,6 +628,8 @@ func checkC12(c *C12Case, st *VStats) *VFailure {
 		rec(guardCall("list --exposure (stop on error) -o md", func() { listRawFocus(dir, true, "md", "", true) }))
 		rec(guardCall("diff(mutated, base)", func() { diffRaw(dir, base) }))
 		rec(guardCall("diff(base, mutated)", func() { diffRaw(base, dir) }))
+		rec(guardCall("diff(mutated, base) (stop on error)", func() { diffRawOne(dir, base, "txt", true) }))
+		rec(guardCall("diff(base, mutated) (stop on error)", func() { diffRawOne(base, dir, "md", true) }))
 		rec(guardCall("eval", func() {
 			objs := parseDir(dir)
 			engines := []*eval.PolicyEngine{}
